@@ -598,7 +598,7 @@ fn len_prefix_under_compressor<const WHICH: usize>() {
 // @funcs: Dname::{compose_rdata,rdlen,compose_len_rdata} under StaticCompressor, compose_prefixed
 // @bound: DNAME whose target x.c' (symbolic octets) may share the suffix with a name already in the message, composed with its length prefix into StaticCompressor<FixedBufM<48>>: prefix = octets written, target uncompressed
 // @covers: optional
-// @tier: thorough
+// @tier: experimental
 // @timeout: 7200
 // @mem: 30
 #[kani::proof]
@@ -609,7 +609,7 @@ fn c05_len_prefix_under_compressor_dname() {
 
 // @funcs: Ns/Cname::{compose_rdata,rdlen,compose_len_rdata} under StaticCompressor, compose_prefixed (back-patched length)
 // @bound: as above for NS and CNAME (compressible types): prefix = octets written whether or not the name got compressed
-// @tier: thorough
+// @tier: experimental
 // @timeout: 7200
 // @mem: 30
 #[kani::proof]
@@ -620,7 +620,7 @@ fn c05_len_prefix_under_compressor_ns() {
 
 // @funcs: Mx::{compose_rdata,rdlen,compose_len_rdata} under StaticCompressor
 // @bound: as above for MX (preference symbolic)
-// @tier: thorough
+// @tier: experimental
 // @timeout: 7200
 // @mem: 30
 #[kani::proof]
